@@ -12,7 +12,9 @@
  *                 fstree_post_process, i.e. in inode number order)
  *       K = d <parent_ino> <nch> { <hexname> <target_ino> }*  |  f F  |  l <hex>  |  b <devno>  |  c <devno>  |  p  |  s
  *   result = <rc> <root_ref> <refs,|-> <ids,|-> <hex inode table> <hex directory table>
- *            (rc of sqfs_serialize_fstree; "-1 build" when the tree could not be built) */
+ *            (rc of sqfs_serialize_fstree; when the tree could not be built: "-1 build add <i>" = fstree_add_generic
+ *            number i failed, "-1 build post" = fstree_post_process failed, "-1 build parse" = bad case line;
+ *            the ImgPost tie compares these verdicts with the extracted lib/fstree model) */
 #include "h_common.h"
 #include "simple_writer.h"
 #include "common.h"
@@ -209,6 +211,7 @@ static void do_case(void)
 	unsigned long long mode, bs, prefill, n, i;
 	sqfs_u64 istart, dstart;
 	int rc, built = 1;
+	const char *why = "parse";
 	sqfs_u32 id;
 	unsigned k;
 
@@ -242,16 +245,19 @@ static void do_case(void)
 		}
 		node = fstree_add_generic(&wr.fs, ent, extra);
 		free(ent);
-		if (node == NULL) { built = 0; break; }
+		if (node == NULL) { built = 0; why = "add"; break; }
 		if (ty[0] != 'h') node->xattr_idx = (sqfs_u32)xattr;
 		if (ty[0] == 'f') {
 			node->data.file.inode = parse_file_inode(ex);
 			if (node->data.file.inode == NULL) { built = 0; break; }
 		}
 	}
-	if (built && fstree_post_process(&wr.fs)) built = 0;
+	if (built && fstree_post_process(&wr.fs)) { built = 0; why = "post"; }
 	if (!built) {
-		puts("img - | -1 build");
+		if (!strcmp(why, "add"))
+			printf("img - | -1 build add %llu\n", i);
+		else
+			printf("img - | -1 build %s\n", why);
 		fstree_cleanup(&wr.fs);
 		return;
 	}
